@@ -249,6 +249,7 @@ func (r *vRun) hostilePBCases() {
 				n++
 				r.hist["hostile_"+tk.what]++
 				term0 := vCaseTerm(7, root.id, "VNone", b, 0)
+				vCur.term = term0
 				var x interface{}
 				var err error
 				if !vGuard(r.out, sg.name+" UnmarshalX("+tk.what+" at "+m.name+"."+f.name+")", term0, func() { x, err = sg.unmarshalPB(b) }) {
@@ -268,14 +269,14 @@ func (r *vRun) hostilePBCases() {
 					r.out.Case(true, vCaseTerm(7, root.id, "VSome ("+r.s.tree(root, v).String()+")", b, 0))
 				}
 				pb := v.Addr().Interface().(vPB)
-				b1, e1 := pb.Marshal()
-				if e1 != nil || pb.Size() != len(b1) {
-					r.out.Oracle("decode-fixpoint", term0, fmt.Sprintf("%s: decoded value does not marshal (err=%v) or Size()=%d != %d", tk.what, e1, pb.Size(), len(b1)))
+				b1, e1 := vMarshal(pb)
+				if sz := vSize(pb); e1 != nil || sz != len(b1) {
+					r.out.Oracle("decode-fixpoint", term0, fmt.Sprintf("%s: decoded value does not marshal (err=%v) or Size()=%d != %d", tk.what, e1, sz, len(b1)))
 					continue
 				}
 				if y, e2 := sg.unmarshalPB(b1); e2 != nil {
 					r.out.Oracle("decode-fixpoint", term0, fmt.Sprintf("%s: Marshal(Unmarshal(b)) does not decode: %v", tk.what, e2))
-				} else if b2, e3 := reflect.ValueOf(y).Interface().(vPB).Marshal(); e3 != nil || string(b2) != string(b1) {
+				} else if b2, e3 := vMarshal(reflect.ValueOf(y).Interface().(vPB)); e3 != nil || string(b2) != string(b1) {
 					r.out.Oracle("decode-fixpoint", term0, fmt.Sprintf("%s: re-encoding is not a fixed point (err=%v)", tk.what, e3))
 				}
 			}
